@@ -113,11 +113,21 @@ class LazyAsync:
 
 
 class SubmitExecutor:
+    """concurrent.futures style: submit(fn, *args, **kwargs), shutdown()"""
+
     def __init__(self, order):
         self.ctrl = Controller(order)
+        self.closed = False
 
     def submit(self, fn, *args, **kw):
+        if self.closed:
+            raise RuntimeError("cannot schedule new futures after shutdown")
         return self.ctrl.add(LazyFuture(self.ctrl), fn, args, kw)
+
+    def shutdown(self, wait=True, cancel_futures=False):
+        # (the caller's to call - as with a real pool, nothing can be
+        # submitted afterwards)
+        self.closed = True
 
 
 class AsyncExecutor:
@@ -243,7 +253,10 @@ def cases(tier, seed):
                     orders = orders[:: max(1, len(orders) // 24)]
                 ex = ["submit", "async", "fakepool"]
                 for oi, order in enumerate(orders):
-                    yield dict(base, strat=ex[(oi + j) % 3], order=order)
+                    # (again: the caller's executor is used for a second
+                    # sweep, which is the one judged)
+                    yield dict(base, strat=ex[(oi + j) % 3], order=order,
+                               again=core.pick(hk + [oi, "exag"], 3) == 0)
                 if n <= 6:
                     for e in ex:
                         yield dict(base, strat=e,
@@ -400,6 +413,9 @@ def check_case(case):
                 xyz.combo_runner(f, combos, **kw)
             except Exception:
                 pass
+        if "executor" in kw:
+            # (same executor object; its scripted completion order restarts)
+            kw["executor"].ctrl = Controller(case["order"])
     with xfn.CallLog() as log:
         try:
             got = xyz.combo_runner(f, combos, **kw)
